@@ -103,7 +103,7 @@ func c14ResumeAtAskingFilter(c *Ctx) {
 					ended = true
 					break
 				}
-				if ret, ok := in.(*ssa.Return); ok {
+				if ret, ok := in.(*ssa.Return); ok && isReturn(in) {
 					n++
 					switch {
 					case last != nil:
